@@ -301,3 +301,20 @@ def sswu_fq2(u, A=E2P_A, B=E2P_B, Z=SSWU_Z2):
     if sgn0_fq2(u) != sgn0_fq2(y):
         y = f2_neg(y)
     return (x, y)
+
+
+# ---------------- group orders and their factorizations (independent literals; primality of the large factors is checked with
+# sympy.isprime where used).  #E(Fq) = h1 * r,  #E'(Fq2) = h2 * r  (E' the sextic twist carrying G2)
+H1_FACTORS = {3: 1, 11: 2, 10177: 2, 859267: 2, 52437899: 2}
+H2_FACTORS = {13: 2, 23: 2, 2713: 1, 11953: 1, 262069: 1,
+              402096035359507321594726366720466575392706800671181159425656785868777272553337714697862511267018014931937703598282857976535744623203249: 1}
+
+
+def _prod(f):
+    n = 1
+    for p_, e_ in f.items():
+        n *= p_ ** e_
+    return n
+
+
+assert _prod(H1_FACTORS) == H1 and _prod(H2_FACTORS) == H2
